@@ -332,7 +332,6 @@ Proof.
   destruct e; simpl; unfold tt_free; rewrite ?T, ?C, ?NI; simpl; auto.
   - destruct (user_ok t); simpl; auto.
   - destruct (uq s); simpl; auto.
-  - rewrite andb_false_r. auto.
 Qed.
 
 Lemma stuck_forever : forall evs s its, Inv AnyP True s -> ttw s = Some its ->
@@ -385,13 +384,28 @@ Lemma run_app : forall a b s, run s (a ++ b) = run (run s a) b.
 Proof. intros. unfold run. apply fold_left_app. Qed.
 
 Lemma drain : forall q ph0 n k o,
-  run (mkst ph0 true n k None q false o) (repeat UserWake (length q)) =
+  fold_left step (repeat UserWake (length q)) (mkst ph0 true n k None q false o) =
   mkst ph0 true n k None [] false (o ++ map (fun t => (t, OUser)) q).
 Proof.
   induction q as [|t r IH]; intros ph0 n k o; simpl.
   - rewrite app_nil_r. reflexivity.
   - unfold step at 2. simpl. unfold emit, set_uq. simpl. rewrite IH. rewrite <- app_assoc. reflexivity.
 Qed.
+
+Definition out_after (p : phase) (o : list item) : list item :=
+  match p with
+  | Idle | SentNewkeys => o
+  | SentKexinit => (o ++ [(30, OKex)]) ++ [(21, OKex)]
+  | InKex => o ++ [(21, OKex)]
+  end.
+
+Lemma out_after_eq : forall p o, out_after p o = o ++ kexpart p.
+Proof. destruct p; intros o; simpl; rewrite <- ?app_assoc, ?app_nil_r; reflexivity. Qed.
+
+Lemma complete_run : forall p n k q o,
+  fold_left step (complete p) (mkst p (is_idle p) n k None q false o) =
+  mkst Idle true (match p with Idle => n | _ => false end) k None q false (out_after p o).
+Proof. destruct p; intros; reflexivity. Qed.
 
 Lemma queued_delivered :
   forall keep evs, let s := run (init_st keep) evs in
@@ -404,21 +418,12 @@ Proof.
   intros keep evs s D T.
   pose proof (reach_inv keep evs) as I. fold s in I.
   pose proof (i_kf _ _ _ I) as K. pose proof (i_cts _ _ _ I) as C. pose proof (i_uq _ _ _ I) as U.
-  apply users_plain in U.
-  destruct s as [p c n k t q d o]. simpl in *. subst d t.
-  rewrite run_app.
-  destruct p; simpl in C; subst c; simpl complete; simpl kexpart.
-  - simpl run at 2. rewrite drain. simpl. repeat split; auto.
-    rewrite off_app, K. simpl phase_kex. rewrite (off_plain_false _ U), app_nil_r. reflexivity.
-  - cbn -[repeat]. unfold emit, set_phase, set_need; cbn -[repeat].
-    rewrite drain. simpl. rewrite <- !app_assoc. simpl. repeat split; auto.
-    rewrite off_app, K. simpl. rewrite (off_plain_false _ U), app_nil_r. reflexivity.
-  - cbn -[repeat]. unfold emit, set_phase, set_need; cbn -[repeat].
-    rewrite drain. simpl. rewrite <- !app_assoc. simpl. repeat split; auto.
-    rewrite off_app, K. simpl. rewrite (off_plain_false _ U), app_nil_r. reflexivity.
-  - cbn -[repeat]. unfold emit, set_phase, set_need; cbn -[repeat].
-    rewrite drain. simpl. repeat split; auto.
-    rewrite off_app, K. simpl phase_kex. rewrite (off_plain_false _ U), app_nil_r. reflexivity.
+  apply users_plain in U. clear I.
+  destruct s as [p c n k t q d o]. simpl in *. subst d t c.
+  unfold run. rewrite fold_left_app, complete_run, drain. simpl.
+  rewrite out_after_eq, <- app_assoc. repeat split; auto.
+  rewrite !off_app, K.
+  destruct p; simpl; unfold kstep; simpl; rewrite (off_plain_false _ U), ?app_nil_r; reflexivity.
 Qed.
 
 (* ---- what fails in the code as written (witnesses over the generated table) ----------------------- *)
@@ -482,7 +487,7 @@ Proof.
                                 | Ungated => existsb (Z.eqb (fst e)) [80; 90]
                                 | Gated => existsb (Z.eqb (fst e)) gated_witnesses
                                 end) handler_table = true) by (vm_compute; reflexivity).
-  intros p d l H N. rewrite forallb_forall in K. specialize (K _ H). simpl in K.
+  intros p d l H N. rewrite forallb_forall in K. specialize (K _ H). cbn [fst snd] in K.
   destruct d; [contradiction| |].
   - left. split; auto. apply existsb_exists in K. destruct K as [x [Hx E]]. apply Z.eqb_eq in E. subst. exact Hx.
   - right. split; auto. apply existsb_exists in K. destruct K as [x [Hx E]]. apply Z.eqb_eq in E. subst. exact Hx.
